@@ -205,6 +205,9 @@ func (group *Group) broadcastByRtmpMsg(msg base.RtmpMsg) {
 		return
 	}
 
+	// 是否为metadata, video seq header, audio seq header
+	isHeaderMsg := msg.Header.MsgTypeId == base.RtmpTypeIdMetadata || msg.IsVideoKeySeqHeader() || msg.IsAacSeqHeader()
+
 	// TODO(chef): 暂时不打开，因为过滤掉了innertest中rtmp和flv的输出和输入就不完全相同了
 	//if msg.Header.MsgTypeId == base.RtmpTypeIdAudio {
 	//	if len(msg.Payload) <= 2 {
@@ -293,6 +296,10 @@ func (group *Group) broadcastByRtmpMsg(msg base.RtmpMsg) {
 				group.rtmpMergeWriter.Flush()
 			}
 			session.ShouldWaitVideoKeyFrame = false
+		} else if session.ShouldWaitVideoKeyFrame && isHeaderMsg {
+			// 等待关键帧期间，metadata和seq header依然需要发送给这个sub session，
+			// 否则等到的关键帧对应的seq header可能已经不是它加入时缓存的那个了（比如推流端中途改变了分辨率）
+			_ = session.Write(lazyRtmpChunkDivider.GetEnsureWithoutSdf())
 		}
 	} // for loop iterate rtmpSubSessionSet
 
@@ -366,6 +373,9 @@ func (group *Group) broadcastByRtmpMsg(msg base.RtmpMsg) {
 			if msg.IsVideoKeyNalu() {
 				session.Write(lazyRtmpMsg2FlvTag.GetEnsureWithoutSdf())
 				session.ShouldWaitVideoKeyFrame = false
+			} else if isHeaderMsg {
+				// 见rtmp sub session处的说明
+				session.Write(lazyRtmpMsg2FlvTag.GetEnsureWithoutSdf())
 			}
 		} else {
 			session.Write(lazyRtmpMsg2FlvTag.GetEnsureWithoutSdf())
